@@ -1,143 +1,111 @@
 ------------------------------- MODULE Timer -------------------------------
-(* utils/timer.go at goroutine grain (property C19).                          *)
+(* utils/timer.go at goroutine grain (property C19), as repaired.             *)
 (*                                                                            *)
 (* One Timer object of kind Kind ("timeout" | "interval") and period P.       *)
-(* Go >= 1.23 timer-channel semantics: time.Timer.Stop / Reset drain a tick   *)
-(* that was sent but not yet received and Stop then reports true.             *)
+(* The implementation arms a runtime timer (time.AfterFunc) for a GENERATION; *)
+(* Stop and Refresh start a new generation under the timer's mutex; the       *)
+(* goroutine a fired runtime timer starts compares its generation with the    *)
+(* current one under the same mutex and does nothing if it is stale.          *)
 (* Each step is what the Go code does between two synchronisation points:     *)
-(*   RtFire        runtime timer expires, tick offered on timer.C             *)
-(*   TimeoutRecv   SetTimeout's goroutine receives the tick and runs fn       *)
-(*   IntervalRecv  SetInterval's loop receives the tick        (hook          *)
-(*   IntervalRearm ... and then Reset()s and spawns fn          timer.interval.ticked between) *)
-(*   StopA/StopB   Timer.Stop: t.timer.Stop()  /  stopCh <- {} (hook timer.stop.stopped between) *)
-(*   Refresh       Timer.Refresh (Stop, maybe `go t.fn()`, Reset) *)
-(* Deviations: "TickWindow" in Deviations  <=> IntervalRecv and IntervalRearm *)
-(* are separate steps (the code as it stands); otherwise they are one step    *)
-(* (the repaired design).                                                     *)
+(*   RtFire      the runtime timer expires: a goroutine is started for its    *)
+(*               generation (yield point timer.fired: not yet at the mutex)   *)
+(*   Process(g)  that goroutine takes the mutex: stale -> nothing; else       *)
+(*               (interval: re-arm) (timeout: spent), unlock, run fn          *)
+(*   Stop        lock; gen++; runtime timer stopped; unlock                   *)
+(*   Refresh     lock; gen++; runtime timer stopped and armed anew; unlock    *)
+(* Deviations:                                                                *)
+(*   "NoGen"      Process does not look at the generation (a tick that fired  *)
+(*                before a Stop/Refresh still runs and re-arms): the defect   *)
+(*                class of the implementation as found (KF-C19-tickwindow)    *)
+(*   "StopKeepsArmed"  Stop changes the generation but leaves the runtime     *)
+(*                timer armed (harmless for callbacks, leaves a timer behind) *)
 EXTENDS Integers, Sequences, FiniteSets, TLC, Json, TimerContract
 
 CONSTANTS Kind, P, Callers, MaxOps, MaxNow, Deviations
 
-VARIABLES now, created, armed, chanFull, nSel, nTicked, pc, ops,
-          due, owed, cancelled, stopAt, bad, tainted, hist
+VARIABLES now, created, gen, armed, infl, ops,
+          due, owed, cancelled, bad, hist
 
-vars == <<now, created, armed, chanFull, nSel, nTicked, pc, ops,
-          due, owed, cancelled, stopAt, bad, tainted, hist>>
-view == <<now, created, armed, chanFull, nSel, nTicked, pc, ops,
-          due, owed, cancelled, stopAt, bad, tainted>>
+vars == <<now, created, gen, armed, infl, ops, due, owed, cancelled, bad, hist>>
+view == <<now, created, gen, armed, infl, ops, due, owed, cancelled, bad>>
 
-StopAts == {stopAt[c] : c \in Callers}
 H(a) == hist' = Append(hist, a)
+NoStops == {Off}        \* Stop is atomic now: no cancellation is ever "in progress"
 
-Init == /\ now = 0 /\ created = FALSE /\ armed = Off /\ chanFull = FALSE
-        /\ nSel = 0 /\ nTicked = 0 /\ pc = [c \in Callers |-> "idle"] /\ ops = 0
-        /\ due = Off /\ owed = Off /\ cancelled = FALSE /\ stopAt = [c \in Callers |-> Off]
-        /\ bad = {} /\ tainted = FALSE /\ hist = <<>>
+\* armed: Off, or [at |-> instant, g |-> generation]; infl: sequence of generations of fired, not yet processed goroutines
+Init == /\ now = 0 /\ created = FALSE /\ gen = 0 /\ armed = [at |-> Off, g |-> 0] /\ infl = <<>> /\ ops = 0
+        /\ due = Off /\ owed = Off /\ cancelled = FALSE /\ bad = {} /\ hist = <<>>
 
 Create == /\ ~created /\ created' = TRUE
-          /\ armed' = now + P /\ nSel' = 1 /\ due' = now + P
+          /\ armed' = [at |-> now + P, g |-> gen] /\ due' = now + P
           /\ H([a |-> "create", kind |-> Kind])
-          /\ UNCHANGED <<now, chanFull, nTicked, pc, ops, owed, cancelled, stopAt, bad, tainted>>
+          /\ UNCHANGED <<now, gen, infl, ops, owed, cancelled, bad>>
 
-RtFire == /\ armed # Off /\ armed <= now
-          /\ armed' = Off /\ chanFull' = TRUE
+RtFire == /\ armed.at # Off /\ armed.at <= now
+          /\ armed' = [at |-> Off, g |-> armed.g] /\ infl' = Append(infl, armed.g)
           /\ H([a |-> "fire"])
-          /\ UNCHANGED <<now, created, nSel, nTicked, pc, ops, due, owed, cancelled, stopAt, bad, tainted>>
+          /\ UNCHANGED <<now, created, gen, ops, due, owed, cancelled, bad>>
 
 \* the callback runs now: contract check + next due instant
-Run == /\ bad' = IF RunLegal(due, owed, cancelled, StopAts, now) THEN bad
-                 ELSE bad \cup {RunClause(due, owed, cancelled, StopAts, now)}
+Run == /\ bad' = IF RunLegal(due, owed, cancelled, NoStops, now) THEN bad
+                 ELSE bad \cup {RunClause(due, owed, cancelled, NoStops, now)}
        /\ due' = DueAfterRun(Kind, P, due, owed, now)
        /\ owed' = Off
 
-TimeoutRecv == /\ Kind = "timeout" /\ chanFull /\ nSel > 0
-               /\ chanFull' = FALSE /\ nSel' = nSel - 1
-               /\ Run
-               /\ H([a |-> "run"])
-               /\ UNCHANGED <<now, created, armed, nTicked, pc, ops, cancelled, stopAt, tainted>>
+Remove(q, i) == SubSeq(q, 1, i - 1) \o SubSeq(q, i + 1, Len(q))
+Process(i) ==
+    /\ i \in 1..Len(infl)
+    /\ infl' = Remove(infl, i)
+    /\ IF infl[i] = gen \/ "NoGen" \in Deviations
+       THEN /\ Run
+            /\ IF Kind = "interval" THEN armed' = [at |-> now + P, g |-> gen] /\ UNCHANGED gen
+               ELSE gen' = gen + 1 /\ UNCHANGED armed
+            /\ H([a |-> "process", i |-> i, run |-> TRUE])
+       ELSE /\ UNCHANGED <<gen, armed, due, owed, bad>>
+            /\ H([a |-> "process", i |-> i, run |-> FALSE])
+    /\ UNCHANGED <<now, created, ops, cancelled>>
 
-IntervalRecv == /\ Kind = "interval" /\ "TickWindow" \in Deviations
-                /\ chanFull /\ nSel > 0
-                /\ chanFull' = FALSE /\ nSel' = nSel - 1 /\ nTicked' = nTicked + 1
-                /\ H([a |-> "ticked"])
-                /\ UNCHANGED <<now, created, armed, pc, ops, due, owed, cancelled, stopAt, bad, tainted>>
+Stop(c) == /\ created /\ ops < MaxOps
+           /\ ops' = ops + 1
+           /\ gen' = gen + 1
+           /\ armed' = IF "StopKeepsArmed" \in Deviations THEN armed ELSE [at |-> Off, g |-> armed.g]
+           /\ cancelled' = TRUE /\ due' = Off /\ owed' = Off
+           /\ H([a |-> "stop", c |-> c])
+           /\ UNCHANGED <<now, created, infl, bad>>
 
-IntervalRearm == /\ nTicked > 0
-                 /\ nTicked' = nTicked - 1 /\ nSel' = nSel + 1
-                 /\ armed' = now + P /\ chanFull' = FALSE
-                 /\ Run
-                 /\ H([a |-> "rearm"])
-                 /\ UNCHANGED <<now, created, pc, ops, cancelled, stopAt, tainted>>
-
-IntervalAtomic == /\ Kind = "interval" /\ "TickWindow" \notin Deviations
-                  /\ chanFull /\ nSel > 0
-                  /\ armed' = now + P /\ chanFull' = FALSE
-                  /\ Run
-                  /\ H([a |-> "run"])
-                  /\ UNCHANGED <<now, created, nSel, nTicked, pc, ops, cancelled, stopAt, tainted>>
-
-NoRefreshRace == TRUE
-StopRetEff(c) == /\ stopAt' = [stopAt EXCEPT ![c] = Off]
-                 /\ cancelled' = TRUE /\ due' = Off /\ owed' = Off
-
-StopA(c) == /\ created /\ pc[c] = "idle" /\ ops < MaxOps
-            /\ ops' = ops + 1
-            /\ tainted' = (tainted \/ nTicked > 0)
-            /\ LET r == armed # Off \/ chanFull IN
-               /\ armed' = Off /\ chanFull' = FALSE
-               /\ IF r THEN /\ pc' = [pc EXCEPT ![c] = "stopB"]
-                            /\ stopAt' = [stopAt EXCEPT ![c] = now]
-                            /\ UNCHANGED <<cancelled, due, owed>>
-                            /\ H([a |-> "stopA", c |-> c, r |-> TRUE])
-                       ELSE /\ UNCHANGED pc
-                            /\ StopRetEff(c)
-                            /\ H([a |-> "stopA", c |-> c, r |-> FALSE])
-            /\ UNCHANGED <<now, created, nSel, nTicked, bad>>
-
-StopB(c) == /\ pc[c] = "stopB" /\ nSel > 0
-            /\ nSel' = nSel - 1
-            /\ pc' = [pc EXCEPT ![c] = "idle"]
-            /\ StopRetEff(c)
-            /\ H([a |-> "stopB", c |-> c])
-            /\ UNCHANGED <<now, created, armed, chanFull, nTicked, ops, bad, tainted>>
-
-\* Refresh concurrent with a Stop in progress has no defined outcome: not explored.
-Refresh(c) == /\ created /\ pc[c] = "idle" /\ ops < MaxOps
-              /\ \A d \in Callers : pc[d] = "idle"
+Refresh(c) == /\ created /\ ops < MaxOps
               /\ ops' = ops + 1
-              /\ tainted' = (tainted \/ nTicked > 0)
-              /\ LET r == armed # Off \/ chanFull IN
-                 nSel' = IF r THEN nSel ELSE nSel + 1
-              /\ armed' = now + P /\ chanFull' = FALSE
-              /\ due' = now + P /\ cancelled' = FALSE /\ owed' = OwedAfterRefresh(due, owed, now)
+              /\ gen' = gen + 1
+              /\ armed' = [at |-> now + P, g |-> gen + 1]
+              /\ due' = now + P /\ cancelled' = FALSE /\ owed' = Off
               /\ H([a |-> "refresh", c |-> c])
-              /\ UNCHANGED <<now, created, nTicked, pc, stopAt, bad>>
+              /\ UNCHANGED <<now, created, infl, bad>>
 
-Urgent == \/ (armed # Off /\ armed <= now)
-          \/ (chanFull /\ nSel > 0)
-          \/ nTicked > 0
+Urgent == (armed.at # Off /\ armed.at <= now) \/ infl # <<>>
 
 Tick == /\ created /\ now < MaxNow /\ ~Urgent
         /\ now' = now + 1
-        /\ bad' = IF Missed(due, StopAts, now + 1) THEN bad \cup {"missed"} ELSE bad
+        /\ bad' = IF Missed(due, NoStops, now + 1) THEN bad \cup {"missed"} ELSE bad
         /\ owed' = Off
         /\ H([a |-> "tick"])
-        /\ UNCHANGED <<created, armed, chanFull, nSel, nTicked, pc, ops, due, cancelled, stopAt, tainted>>
+        /\ UNCHANGED <<created, gen, armed, infl, ops, due, cancelled>>
 
-Next == \/ Create \/ RtFire \/ TimeoutRecv \/ IntervalRecv \/ IntervalRearm \/ IntervalAtomic \/ Tick
-        \/ \E c \in Callers : StopA(c) \/ StopB(c) \/ Refresh(c)
+Next == \/ Create \/ RtFire \/ Tick
+        \/ \E i \in 1..3 : Process(i)
+        \/ \E c \in Callers : Stop(c) \/ Refresh(c)
 
 Spec == Init /\ [][Next]_vars
 
 ----------------------------------------------------------------------------
-Quiet == ~Urgent /\ \A c \in Callers : pc[c] = "idle"
+Quiet == ~Urgent
 
 \* C19 clauses
-C19_Runs      == ~tainted => bad = {}                       \* once, at due time, never after cancel, none missed
-C19_StopPrompt == ~tainted => ~(\E c \in Callers : pc[c] = "stopB" /\ nSel = 0 /\ nTicked = 0)
-C19_NoLeak    == ~tainted => (Quiet => CensusLegal(due, nSel + nTicked))
-\* with the deviation, the defect must be reachable (used as a sanity check, expected to FAIL as an invariant)
-Reach_Taint   == ~(tainted /\ bad # {})
+C19_Runs      == bad = {}                                   \* once, at due time, never after cancel, none missed
+\* nothing is left behind: at quiescence the runtime timer is armed exactly when a callback is due
+C19_NoLeak    == Quiet => ((armed.at # Off) <=> (due # Off))
+\* an armed runtime timer always belongs to the current generation (a stale one would fire a goroutine for nothing)
+C19_ArmedIsCurrent == armed.at # Off => armed.g = gen
+C19_StopPrompt == TRUE                                       \* Stop and Refresh are single critical sections: they never wait
 
 \* behaviours for replay
 Emit == (ops = MaxOps \/ now = MaxNow) => PrintT("BEHAVIOUR " \o ToJson(hist))
